@@ -1,4 +1,6 @@
 """C02 -- edge list columns stay parallel and motif identities are well formed."""
+import numbers
+
 from vlib.runner import Violation
 from checks import gcm_common as G
 
@@ -64,26 +66,42 @@ def check(case):
         raise Violation("columns-length", f"len(edge_list)={len(el)} len(topologies)={len(tp)} len(motif_id)={len(mi)}; "
                                           f"edge_list={el} topologies={tp} motif_id={mi}")
     for e in el:
-        if not (isinstance(e, (tuple, list)) and len(e) == 2 and all(isinstance(x, int) and not isinstance(x, bool) for x in e)):
+        if not (isinstance(e, (tuple, list)) and len(e) == 2 and all(isinstance(x, numbers.Integral) and not isinstance(x, bool) for x in e)):
             raise Violation("edge-not-pair", f"edge entry {e!r} is not a pair of vertex ids; edge_list={el}")
-    # group rows by motif id: contiguous runs
-    runs = []
+    # group rows by motif id.  The property fixes which rows share an id and which name each row carries, not the
+    # order of the rows, nor that the rows of one instance are adjacent, nor the orientation of a pair: compare, per
+    # id, the multiset of (unordered pair, name) with the multiset one journalled callback return prescribes.
+    from collections import Counter
+
+    def und(e):
+        return tuple(sorted(e))
+    got = {}
     for e, nme, i in zip(el, tp, mi):
-        if runs and runs[-1][0] == i:
-            runs[-1][1].append(tuple(e))
-            runs[-1][2].append(nme)
+        try:
+            hash(i)
+            key = i
+        except TypeError:
+            key = ("unhashable", repr(i))
+        got.setdefault(key, []).append((und(e), nme))
+    want = [sorted(zip(map(und, rows), names), key=repr) for rows, names in groups]
+    got_sorted = {i: sorted(v, key=repr) for i, v in got.items()}
+    pool = Counter(repr(w) for w in want)
+    unmatched = []
+    for i, v in got_sorted.items():
+        if pool[repr(v)] > 0:
+            pool[repr(v)] -= 1
         else:
-            runs.append((i, [tuple(e)], [nme]))
-    ids = [r[0] for r in runs]
-    if len(set(ids)) != len(ids):
-        raise Violation("id-not-contiguous", f"a motif id labels non-contiguous rows / two instances: ids {mi}")
-    if len(runs) != len(groups):
-        raise Violation("id-groups", f"{len(runs)} motif-id groups for {len(groups)} motif instances with edges; "
-                                     f"motif_id={mi}, instances={[r for r, _ in groups]}")
-    for (i, rows, names), (wrows, wnames) in zip(runs, groups):
-        if rows != wrows:
-            raise Violation("id-group-edges", f"rows with motif id {i} are {rows}, the callback returned {wrows}")
-        if names != wnames:
-            raise Violation("edge-names", f"rows with motif id {i} named {names}, prescribed {wnames}")
+            unmatched.append((i, v))
+    if unmatched or len(got_sorted) != len(want):
+        left = [w for w in want if pool[repr(w)] > 0]
+        if len(got_sorted) != len(want):
+            raise Violation("id-groups", f"{len(got_sorted)} motif-id groups for {len(want)} motif instances with edges; "
+                                         f"motif_id={mi}, instances={[r for r, _ in groups]}")
+        i, v = unmatched[0]
+        same_edges = [w for w in left if sorted(e for e, _ in w) == sorted(e for e, _ in v)]
+        if same_edges:
+            raise Violation("edge-names", f"rows with motif id {i} are named {v}, the callbacks prescribe {same_edges[0]}")
+        raise Violation("id-group-edges", f"rows with motif id {i} are {[e for e, _ in v]}: not the edges of one "
+                                          f"callback return (unmatched instances {[[e for e, _ in w] for w in left][:4]})")
     nt = any(len(r) >= 2 for r, _ in groups) and len(groups) >= 2
     return {"nontrivial": nt, "classes": sorted(G.classes_of(case))}
